@@ -45,6 +45,7 @@ type VPacketConn struct {
 	ReadPos  int
 	CloseErr error
 	Gated    bool
+	Stream   bool          // stream transport behind proto.STUNConn: ReadFrom reports the frame's full size even when p is shorter
 	Idle     chan struct{} // if set: with the script exhausted and the socket open, ReadFrom waits (for ever)
 }
 
@@ -64,6 +65,9 @@ func (c *VPacketConn) ReadFrom(p []byte) (int, net.Addr, error) {
 		d.Before()
 	}
 	n := copy(p, d.Data) // a datagram larger than the buffer is cut to len(p)
+	if c.Stream {
+		n = len(d.Data) // STUNConn.ReadFrom: the size of the frame, whatever fits
+	}
 	return n, d.From, nil
 }
 
